@@ -36,6 +36,18 @@ static bool gnutls_can_import(EVP_PKEY *pk)
 	return ok;
 }
 
+// Called once from main() before any run (it draws entropy, which must never happen lazily
+// in the middle of a step: that made a run's signatures depend on the worker's history).
+void provider_probe()
+{
+	if (g_gnutls_ed448 >= 0)
+		return;
+	sim_entropy_point(0x6e7);
+	EVP_PKEY *pk = EVP_PKEY_Q_keygen(NULL, NULL, "ED448");
+	g_gnutls_ed448 = pk && gnutls_can_import(pk) ? 1 : 0;
+	EVP_PKEY_free(pk);
+}
+
 bool provider_supports(int prov, const AlgInfo &a, const KeyTruth &k)
 {
 	if (prov != PROV_GNUTLS)
@@ -45,13 +57,8 @@ bool provider_supports(int prov, const AlgInfo &a, const KeyTruth &k)
 	if (k.kty == K_EC && k.crv == "secp256k1")
 		return false;
 	if (k.kty == K_OKP && k.crv == "Ed448") {
-		if (g_gnutls_ed448 < 0) {
-			uint64_t save = 0x6e7;
-			(void)save;
-			EVP_PKEY *pk = EVP_PKEY_Q_keygen(NULL, NULL, "ED448");
-			g_gnutls_ed448 = pk && gnutls_can_import(pk) ? 1 : 0;
-			EVP_PKEY_free(pk);
-		}
+		if (g_gnutls_ed448 < 0)
+			provider_probe();
 		return g_gnutls_ed448 == 1;
 	}
 	return true;
@@ -272,7 +279,9 @@ std::string apply_mutation(const Step &m, std::string &tok, MutCtx &mc, bool &de
 		destroys = true;
 		return desc + strf("(%zu)", n);
 	} else if (op == "extend") {
-		size_t n = 1 + (size_t)((uint64_t)m.I("n") % 96);
+		// lengths around powers of two matter (a length compared modulo 256 passes +256, +512...)
+		static const size_t BIG[] = {127, 128, 129, 255, 256, 257, 511, 512, 513, 768, 1024, 4096, 65536};
+		size_t n = m.I("big") ? BIG[((uint64_t)m.I("big") - 1) % ARRAY_LEN(BIG)] : 1 + (size_t)((uint64_t)m.I("n") % 96);
 		Rng r(mix64(0xe87, (uint64_t)m.I("seed")));
 		std::string extra;
 		for (size_t i = 0; i < n; i++)
@@ -572,6 +581,8 @@ Step gen_mutation(Rng &r, const std::string &bias)
 		m.set("front", r.chance(1, 5) ? 1 : 0);
 	} else if (o == "extend") {
 		m.set("n", r.range(0, 95));
+		if (r.chance(1, 3))
+			m.set("big", r.range(1, 13));
 		m.set("seed", (int64_t)r.below(1 << 30));
 		m.set("front", r.chance(1, 4) ? 1 : 0);
 	} else if (o == "dots") {
@@ -714,6 +725,42 @@ extern "C" int world_cb(jwt_t *jwt, jwt_config_t *config)
 	if (c->capture) {
 		c->hdr_json = get_whole_json(jwt, true, c->hdr_rc);
 		c->claims_json = get_whole_json(jwt, false, c->claims_rc);
+		// the typed getters must deliver the same values as the whole-object read
+		c->typed_mismatch.clear();
+		for (int h = 0; h < 2; h++) {
+			json_t *o = json_loads((h ? c->hdr_json : c->claims_json).c_str(), 0, NULL);
+			const char *k;
+			json_t *v;
+			if (o && json_is_object(o))
+				json_object_foreach(o, k, v)
+				{
+					if (!*k)
+						continue;
+					jwt_value_t jv;
+					if (json_is_integer(v)) {
+						jv_get(&jv, JWT_VALUE_INT, k);
+						int rc = h ? jwt_header_get(jwt, &jv) : jwt_claim_get(jwt, &jv);
+						c->typed_reads++;
+						if (rc != JWT_VALUE_ERR_NONE || jv.int_val != (long)json_integer_value(v))
+							c->typed_mismatch.push_back(strf("INT %s.%s: typed get rc=%d value %ld, JSON says %lld", h ? "header" : "claims", k, rc, jv.int_val,
+											 (long long)json_integer_value(v)));
+					} else if (json_is_string(v)) {
+						jv_get(&jv, JWT_VALUE_STR, k);
+						int rc = h ? jwt_header_get(jwt, &jv) : jwt_claim_get(jwt, &jv);
+						c->typed_reads++;
+						if (rc != JWT_VALUE_ERR_NONE || !jv.str_val || strcmp(jv.str_val, json_string_value(v)))
+							c->typed_mismatch.push_back(strf("STR %s.%s: typed get rc=%d differs from the JSON value", h ? "header" : "claims", k, rc));
+					} else if (json_is_boolean(v)) {
+						jv_get(&jv, JWT_VALUE_BOOL, k);
+						int rc = h ? jwt_header_get(jwt, &jv) : jwt_claim_get(jwt, &jv);
+						c->typed_reads++;
+						if (rc != JWT_VALUE_ERR_NONE || (jv.bool_val != 0) != json_is_true(v))
+							c->typed_mismatch.push_back(strf("BOOL %s.%s: typed get rc=%d value %d", h ? "header" : "claims", k, rc, jv.bool_val));
+					}
+				}
+			if (o)
+				json_decref(o);
+		}
 	}
 	switch (c->mode) {
 	case 1:
